@@ -56,7 +56,22 @@ fn run_case(below: &[T], parents: &[T], offspring: &[T], op: Op, seed: u64) -> O
     st.insert(p);
     st.insert(Random::new(seed));
     let comp = component(op);
-    let r = catch(|| comp.execute(&TagP, &mut st).map_err(|e| format!("{e:#}")));
+    // the operator is initialised like in a run; for odd seeds a second instance of the same operator with other
+    // parameters is initialised after it in the same state (two replacement steps in one configuration): each
+    // instance works with its own parameters
+    let r = catch(|| {
+        comp.init(&TagP, &mut st).map_err(|e| format!("init: {e:#}"))?;
+        if seed % 2 == 1 {
+            let twin = match op {
+                Op::MuPlusLambda(m) => replacement::MuPlusLambda::new::<TagP>(m + 2),
+                Op::Random(m) => replacement::RandomReplacement::new::<TagP>(m + 2),
+                Op::Generational => replacement::Generational::new::<TagP>(1),
+                _ => component(op),
+            };
+            twin.init(&TagP, &mut st).map_err(|e| format!("init of the second instance: {e:#}"))?;
+        }
+        comp.execute(&TagP, &mut st).map_err(|e| format!("{e:#}"))
+    });
     let name = format!("{op:?}").split('(').next().unwrap().to_string();
     let shape = format!("parents-{}:offspring-{}", if parents.is_empty() { "empty" } else { "nonempty" }, if offspring.is_empty() { "empty" } else { "nonempty" });
     let r = match r {
@@ -65,7 +80,24 @@ fn run_case(below: &[T], parents: &[T], offspring: &[T], op: Op, seed: u64) -> O
     };
     if op == Op::KeepBetter && parents.len() != offspring.len() {
         return match r {
-            Err(_) => None,
+            Err(_) => {
+                // the refused step either left both populations alone or consumed both - not one of them, and never the one beneath
+                let pops = st.populations();
+                let mut stack: Vec<Vec<T>> = Vec::new();
+                let mut d = 0;
+                while let Some(pop) = pops.try_peek(d) {
+                    stack.push(pop.iter().map(view).collect());
+                    d += 1;
+                }
+                stack.reverse();
+                let untouched = stack.len() == 3 && stack[0] == below && stack[1] == parents && stack[2] == offspring;
+                let both_consumed = stack.len() == 1 && stack[0] == below;
+                if untouched || both_consumed {
+                    None
+                } else {
+                    Some((format!("{name}:refused-step-leaves-the-two-populations-half-consumed"), format!("stack after the error: {:?}", stack.iter().map(|p| show(p)).collect::<Vec<_>>())))
+                }
+            }
             Ok(()) => Some((format!("{name}:unequal-sizes-not-reported"), format!("parents {:?} offspring {:?} accepted", show(parents), show(offspring)))),
         };
     }
@@ -159,7 +191,7 @@ fn all_pops(max: usize, tag0: u32) -> Vec<Vec<T>> {
 
 fn main() {
     let rep = Reporter::from_args("C12");
-    rep.rule("all pairs of parent/offspring populations of uniquely tagged individuals of size 0..max over objective values {-1,0,-0,2,+inf} (ties and duplicates of values included, signed zeros tie) under a third untouched population, x all six replacement components x mu in 0..total+2 (x seeds for the random one): height -1, bottom untouched, result a sub-multiset of parents+offspring, content as the operator is named (parents / offspring / concatenation / min(mu,total) best with no discarded individual better than a kept one / any min(mu,total) / index-wise better with ties to the parent and Err on unequal sizes); plus random larger populations (incl. values one rounding error apart, which are different and must be told apart). distinct_nontrivial = distinct (operator, parents, offspring) cells (sampled 1/5)");
+    rep.rule("all pairs of parent/offspring populations of uniquely tagged individuals of size 0..max over objective values {-1,0,-0,2,+inf} (ties and duplicates of values included, signed zeros tie) under a third untouched population, x all six replacement components x mu in 0..total+2 (x seeds for the random one), each initialised as in a run and, for odd seeds, followed by the initialisation of a second instance with other parameters in the same state: height -1, bottom untouched, result a sub-multiset of parents+offspring, content as the operator is named (parents / offspring / concatenation / min(mu,total) best with no discarded individual better than a kept one / any min(mu,total) / index-wise better with ties to the parent and Err on unequal sizes); plus random larger populations (incl. values one rounding error apart, which are different and must be told apart). distinct_nontrivial = distinct (operator, parents, offspring) cells (sampled 1/5)");
     let max = rep.tier.pick(4usize, 5usize);
     rep.set("exhaustive_max_population_size", json!(max));
     let parents_all = all_pops(max, 1);
